@@ -217,6 +217,16 @@ class LU:
     def solve(self, b, trans='N'):
         return _solve(self, b, 1 if trans in ('T', 1) else 0)
 
+    # scipy's lu_factor returns the pair (lu, piv): code may look at its parts (e.g. lu[0].shape)
+    def __len__(self):
+        return 2
+
+    def __getitem__(self, i):
+        return (self.A, np.arange(self.A.shape[0]))[i]
+
+    def __iter__(self):
+        return iter((self.A, np.arange(self.A.shape[0])))
+
 
 def _solve(lu, b, trans):
     b = np.asarray(_obj(np.asarray(b, dtype=object)))
